@@ -175,11 +175,18 @@ def check_C01(ctx):
     broken = corr_enc(ctx, S, writable)
     # decode what was written, with and without a continuation
     dbroken = []
-    for suffix in ('', 'ff01'):
-        rows = S.run_dec(dec_items_from_enc(S, suffix))
+    for suffix in ('', 'ff01', 'prior'):
+        if suffix == 'prior':
+            # the destination is an object of the same type that already holds a value (a reused object)
+            items = [(tid, hx, hs, tag, nopgen.gen_value(pool.types[tid], ctx.rng)) for (tid, hx, hs, tag, _) in dec_items_from_enc(S, '')]
+            if ctx.quick:
+                items = items[::2]
+            rows = S.run_dec(items)
+        else:
+            rows = S.run_dec(dec_items_from_enc(S, suffix))
         for d in rows:
             e = d['tag']
-            ctx.count('roundtrip' + ('+cont' if suffix else ''), d['case'], nontrivial=d['h'] is not None)
+            ctx.count('roundtrip' + ('+cont' if suffix == 'ff01' else '+populated' if suffix == 'prior' else ''), d['case'], nontrivial=d['h'] is not None)
             if d['h'] is None:
                 ctx.violate('harness-crash:dec', 'reader crashed: %s -> %s' % (d['case'][:160], d['hraw'][:300]), {'case': d['case'], 'output': d['hraw']})
                 continue
@@ -672,7 +679,11 @@ def check_C07(ctx):
     fam = sorted({i for i, _ in pairs})
     S = CodecStreams(ctx, nvals=(40 if ctx.quick else 400), types=fam)
     rows = [r for r in S.run_enc() if r['h'] and r['h']['st'] == '0']
-    broken = corr_enc(ctx, S, lambda r: None)
+    def writable(r):
+        if r['m'].get('typed') == 'true' and r['h']['st'] != '0':
+            return ('write-fails', 'Write of an encodable table value failed with status %s: %s' % (r['h']['st'], r['case'][:200]))
+        return None
+    broken = corr_enc(ctx, S, writable)
     by = {}
     for r in rows:
         by.setdefault(r['tid'], []).append(r)
